@@ -185,4 +185,31 @@ Section Hooks.
     apply seg_app; [apply seg_vxlan_notrack|].
     apply seg_cons; [apply seg_rule_allow; left; reflexivity|apply seg_nil].
   Qed.
+  Lemma noop_chain_ok : forall I n body, noop_chain body = true -> seg_ok cs e I n body.
+  Proof.
+    intros I n body. induction body as [|r rest IH]; intro H; [apply seg_nil|].
+    cbn [noop_chain forallb] in H. apply andb_true_iff in H. destruct H as [Hr Hrest].
+    apply seg_cons; [|apply IH, Hrest]. destruct r as [ms a]. cbn [ir_action] in Hr.
+    apply (seg_rule_noop cs e I n ms a). destruct a; try discriminate; unfold is_noop; tauto.
+  Qed.
+
+  (* mangle POSTROUTING: host-originated traffic that was DNAT'd meets the host endpoint's egress chain here *)
+  Theorem fs_out_mangle_postrouting : forall n disp dscp,
+    lookup cs CH_FS_OUT = Some (failsafe_out TMangle c) ->
+    lookup cs CH_TO_HEP = Some disp -> hep_disp_ok cs CH_TO_HEP CH_FS_OUT = true ->
+    lookup cs CH_EGRESS_DSCP = Some dscp -> noop_chain dscp = true ->
+    seg_ok cs e I_out (S (S (S (S n)))) (mangle_postrouting c).
+  Proof.
+    intros n disp dscp Hfs Hd Hshape Hdl Hdn. unfold mangle_postrouting.
+    apply seg_app.
+    { apply seg_opt. apply seg_map. intros pfx _. apply seg_rule_noop. left. reflexivity. }
+    apply seg_cons; [apply (seg_rule_jump cs e I_out _ _ CH_EGRESS_DSCP dscp Hdl), noop_chain_ok, Hdn|].
+    apply seg_cons; [apply seg_rule_allow; right; reflexivity|].
+    apply seg_cons; [apply (seg_rule_mark cs e I_out I_out_mark)|].
+    apply seg_cons; [|apply seg_cons; [apply seg_rule_allow; right; reflexivity|apply seg_nil]].
+    apply (seg_rule_jump cs e I_out _ _ CH_TO_HEP disp Hd).
+    apply (hep_dispatch_ok cs e I_out I_out_mark CH_TO_HEP CH_FS_OUT _ n disp Hfs); try assumption.
+    - intros p (H1 & H2 & _). apply failsafe_out_accepts; assumption.
+    - exact I_out_ct.
+  Qed.
 End Hooks.
